@@ -114,3 +114,11 @@ PROPS = {
                        'stub': ['separator unit operations (tasks)', 'scheduler / PRNG']},
     },
 }
+
+# eqsim_ll (C08 bubble/dew points, C15 LLE/SLE): specifications kept in checks/props_ll.py
+from checks.props_ll import PROPS_LL  # noqa: E402
+PROPS.update(PROPS_LL)
+
+# eqsim (C03 conservation in phase equilibrium, C04 flash post-conditions): checks/props_eq.py
+from checks.props_eq import PROPS_EQ  # noqa: E402
+PROPS.update(PROPS_EQ)
